@@ -39,8 +39,12 @@ func copyTree(src, dst string) error {
 	return nil
 }
 
-func runOn(self, prop, repo, verif string) (fired bool, fails []string) {
+// runOn runs the quick tier on a scratch copy. The build output of the copy (export data of its packages) goes to a
+// build cache of its own under the scratch root, which is removed with it; the user's cache would otherwise grow by
+// some 25 MB per variant.
+func runOn(self, prop, repo, verif, gocache string) (fired bool, fails []string) {
 	cmd := exec.Command(self, "-prop", prop, "-tier", "quick", "-repo", repo, "-verif", verif, "-noreplay")
+	cmd.Env = append(os.Environ(), "GOCACHE="+gocache)
 	out, _ := cmd.CombinedOutput()
 	re := regexp.MustCompile(`(?m)^FAIL (\S+)`)
 	for _, m := range re.FindAllStringSubmatch(string(out), -1) {
@@ -69,7 +73,7 @@ func selfTest(prop, repo, verif string) selfTestResult {
 		if err := cmd.Run(); err != nil {
 			return false, false, nil
 		}
-		fired, fails = runOn(self, prop, dir, verif)
+		fired, fails = runOn(self, prop, dir, verif, filepath.Join(tmpRoot, "gocache"))
 		return true, fired, fails
 	}
 	seeds, _ := filepath.Glob(filepath.Join(verif, "seeded", prop+"-*"))
